@@ -52,6 +52,10 @@ THEOREMS = [
     'PbBss.C03.vmf_round_hard_uniform',
     'PbBss.C03.fixed_point_vmf_balanced',
     'PbBss.C03.fixed_point_vmf_balanced_hard',
+    'PbBss.C03.fixed_point_sph_balanced',
+    'PbBss.C03.fixed_point_cacg_balanced',
+    'PbBss.C03.fixed_point_cacg_balanced_blur',
+    'PbBss.C03.cacg_trajectory_stationary',
 ]
 ASSUMPTIONS = [
     'the theorems cover the RANKING MECHANISMS of the E-step (sign of the Watson / vMF concentration, reciprocal cACG '
@@ -71,7 +75,10 @@ ASSUMPTIONS = [
     'vMFMM: first M-step and one round from the hard true partition for any class masses, n-step fixed point by induction for '
     'the balanced scene (fixed_point_vmf_balanced; uses only lo <= kappa <= hi, so it does not depend on the value of '
     'Banerjee\'s formula at mean resultant length exactly 1, where x/0 is 0 over R and +inf in IEEE arithmetic); '
-    'no theorem for the complex Bingham model, nor fixed-point theorems for the full-covariance GMM and the two integration '
+    'spherical GMM: n-step fixed point for the balanced scene from a strictly blurred start (fixed_point_sph_balanced); '
+    'cACGMM: n-step fixed point for the balanced scene from the hard start and from blurred starts with h0 <= floor*g0 '
+    '(fixed_point_cacg_balanced, _blur; stationary trajectory); '
+    'no theorem for the complex Bingham model, nor fixed-point theorems for the diagonal / full-covariance GMM and the two integration '
     'models (their E-step ranking is covered by gauss_full_rank / gcacg_rank_scene / vmfcacg_rank_scene); guards carried as hypotheses: tiny > 0, quadratic-form floor inactive (tiny <= 1), denominator '
     'clamps inactive (tiny <= class mass, tiny <= 1/K), 0 < eigenvalue floor < 1',
     'correspondence on C03\'s own domain (separable scenes, blurred true start, code iterate i -> model step -> code iterate '
